@@ -8,6 +8,7 @@ import VlsModel.Lemmas.HandlerFn
 import VlsModel.Gen.FnEnforceTest
 import VlsModel.Gen.FnChannelSlotId
 import VlsModel.Gen.FnChannelValidate
+import VlsModel.Gen.FnChannelTestSetters
 /-
 C01 — the progression check in front of the holder counter, `Validator::set_next_holder_commit_num`
 (`vls-core/src/policy/validator.rs:256`, a default method of `trait Validator`, mechanism "set_next_holder_commit_num
@@ -931,5 +932,37 @@ example :
   rfl
 
 end ValidatePhase2
+
+/-! ### Round 10: the `Channel` wrappers of the test-only setters (`Gen/FnChannelTestSetters.lean`, channel.rs:521, 641, 651)
+
+compiled only under `cfg(test)` / feature `test_utils`.  On their generated bodies: each wrapper replaces the enforcement state by
+the result of the `EnforcementState` setter of the same name and does nothing else; instantiated with the generated setters of
+`Gen/FnEnforceTest.lean` (tied to the model's unguarded steps above) the wrapper IS that setter on the channel's state. -/
+section ChannelTestSetters
+
+theorem C01_fn_channel_set_next_holder_commit_num_for_testing {PK : Type}
+    (ch : Gen.FnChannelTestSetters.Channel (Gen.FnEnforceTest.EnforcementState PK)) (num : Nat) :
+    Gen.FnChannelTestSetters.Channel.set_next_holder_commit_num_for_testing
+        Gen.FnEnforceTest.EnforcementState.set_next_holder_commit_num_for_testing ch num
+      = { enforcement_state := Gen.FnEnforceTest.EnforcementState.set_next_holder_commit_num_for_testing ch.enforcement_state num } :=
+  rfl
+
+theorem C01_fn_channel_set_next_counterparty_commit_num_for_testing {PK : Type}
+    (ch : Gen.FnChannelTestSetters.Channel (Gen.FnEnforceTest.EnforcementState PK)) (num : Nat) (pt : PK) :
+    Gen.FnChannelTestSetters.Channel.set_next_counterparty_commit_num_for_testing
+        Gen.FnEnforceTest.EnforcementState.set_next_counterparty_commit_num_for_testing ch num pt
+      = { enforcement_state :=
+            Gen.FnEnforceTest.EnforcementState.set_next_counterparty_commit_num_for_testing ch.enforcement_state num pt } :=
+  rfl
+
+theorem C01_fn_channel_set_next_counterparty_revoke_num_for_testing {PK : Type}
+    (ch : Gen.FnChannelTestSetters.Channel (Gen.FnEnforceTest.EnforcementState PK)) (num : Nat) :
+    Gen.FnChannelTestSetters.Channel.set_next_counterparty_revoke_num_for_testing
+        Gen.FnEnforceTest.EnforcementState.set_next_counterparty_revoke_num_for_testing ch num
+      = { enforcement_state :=
+            Gen.FnEnforceTest.EnforcementState.set_next_counterparty_revoke_num_for_testing ch.enforcement_state num } :=
+  rfl
+
+end ChannelTestSetters
 
 end VlsModel.Props.C01Fn
